@@ -57,6 +57,7 @@ def cases(tier, seed):
     # -- float16 from an 8-bit input, say -- is exact below 2048 only)
     for n, p, d in ((64, .9, False), (72, .85, True)) + (((130, .95, False), (100, .6, True)) if thorough else ()):
         out.append({'g': ['er', n, p, d, seed + n], 'directed': d, 'ws': seed + n, 'schemes': ['bin'], 'bigdense': True})
+    out.append({'kind': 'degenerate', 'g': ['named', 'path', 2], 'directed': False, 'ws': 0, 'schemes': []})
     return out
 
 
@@ -66,6 +67,10 @@ def exact_zero_ok(C, mask):
 
 
 def run(case, bct, REC):
+    if case.get('kind') == 'degenerate':
+        from .common import degenerate_sizes
+        REC.tag(PROP, 'exec')
+        return degenerate_sizes(REC, PROP, bct, [('clustering_coef_bu', ()), ('clustering_coef_bd', ()), ('clustering_coef_wu', ()), ('clustering_coef_wd', ())])
     A = G.build(case['g'])
     directed = case['directed']
     n = len(A)
